@@ -126,17 +126,26 @@ package updog
 //@ pure wf(x Expression) bool reads ExprNot.Expr, ExprAnd.Exprs, ExprOr.Exprs, []Expression
 //@ axiom wf_nonnil: forall x Expression :: { wf(x) } wf(x) ==> x != nil && iref(x) != nil
 //@    && (typeof(x) == ptrtag(ExprEqual) || typeof(x) == ptrtag(ExprNot) || typeof(x) == ptrtag(ExprAnd) || typeof(x) == ptrtag(ExprOr))
-//@ axiom wf_not: forall x Expression :: { wf(x) } typeof(x) == ptrtag(ExprNot) && wf(x) ==> wf(x.(*ExprNot).Expr)
+//@ axiom wf_eq: forall x Expression :: { wf(x) } typeof(x) == ptrtag(ExprEqual) && iref(x) != nil ==> wf(x)
+//@ axiom wf_not: forall x Expression :: { wf(x) } typeof(x) == ptrtag(ExprNot) && iref(x) != nil ==> (wf(x) <==> wf(x.(*ExprNot).Expr))
 //@ axiom wf_and: forall x Expression, k int :: { wf(x), heap("[]Expression")[arr(x.(*ExprAnd).Exprs)][k] } typeof(x) == ptrtag(ExprAnd) && wf(x)
 //@    && off(x.(*ExprAnd).Exprs) <= k && k < off(x.(*ExprAnd).Exprs) + len(x.(*ExprAnd).Exprs) ==> wf(heap("[]Expression")[arr(x.(*ExprAnd).Exprs)][k])
 //@ axiom wf_or: forall x Expression, k int :: { wf(x), heap("[]Expression")[arr(x.(*ExprOr).Exprs)][k] } typeof(x) == ptrtag(ExprOr) && wf(x)
 //@    && off(x.(*ExprOr).Exprs) <= k && k < off(x.(*ExprOr).Exprs) + len(x.(*ExprOr).Exprs) ==> wf(heap("[]Expression")[arr(x.(*ExprOr).Exprs)][k])
+//@ axiom wf_and_intro: forall x Expression :: { wf(x) } typeof(x) == ptrtag(ExprAnd) && iref(x) != nil
+//@    && (forall j idx(x.(*ExprAnd).Exprs) :: wf(x.(*ExprAnd).Exprs[j])) ==> wf(x)
+//@ axiom wf_or_intro: forall x Expression :: { wf(x) } typeof(x) == ptrtag(ExprOr) && iref(x) != nil
+//@    && (forall j idx(x.(*ExprOr).Exprs) :: wf(x.(*ExprOr).Exprs[j])) ==> wf(x)
 
 //@ pred SchemaOK(s *schema) := s != nil && (forall k string :: (k in s.Columns) ==> s.Columns[k] != nil)
 //@ pred IdxInv(idx *Index) := idx != nil && SchemaOK(idx.schema) && idx.metrics != nil && idx.values != nil && CacheValid(idx.cache)
+//@   && (forall c string, v string :: (c in idx.schema.Columns) && (v in idx.schema.Columns[c].Values) ==> (idx.schema.Columns[c].Values[v] in idx.values.has))
 
+//@ ghost field colGetter.has (Array Int Bool)
 //@ interface colGetter.GetCol(g, key) (bm, err)
 //@   requires g != nil
+//@   ensures err == nil && (key in g.has) ==> bm != nil
+//@   ensures err != nil ==> bm == nil
 
 //@ interface Expression.eval(e, idx) (bm, err)
 //@   requires wf(e) && IdxInv(idx)
@@ -151,7 +160,6 @@ package updog
 
 //@ func [C14,C04,C03] (*ExprEqual).eval(e, idx) inherits Expression.eval
 //@ func [C14,C04,C03] (*ExprNot).eval(e, idx) inherits Expression.eval
-//@   assumes rows32: idx.nextRowID <= 4294967295
 //@ func [C14,C04,C03] (*ExprAnd).eval(e, idx) inherits Expression.eval
 //@   loop 1
 //@     invariant IdxInv(idx) && wf(e)
@@ -183,10 +191,59 @@ package updog
 //@   loop 1
 //@     invariant wf(e) && 0 <= $i && $i <= len(e.Exprs)
 
-//@ func [C08,C14,C04] (*Index).Execute(idx, q) (result, err)
+// ---- group-by (C02): resolved group-by columns
+//@ pred ValuesOK(vs []groupByValue, col *column) :=
+//@   (forall a idx(vs) :: (vs[a].Value in col.Values) && col.Values[vs[a].Value] == vs[a].Idx)
+//@   && (forall a idx(vs), b idx(vs) :: a < b ==> vs[a].Value < vs[b].Value)
+//@ pred GBOK(gbs []groupBy, columns []string, sch *schema) := len(gbs) == len(columns)
+//@   && (forall j idx(gbs) :: gbs[j].Column == columns[j] && (columns[j] in sch.Columns) && ValuesOK(gbs[j].Values, sch.Columns[columns[j]]))
+
+//@ func [C02,C08,C14] (*Query).populateGroupBy(q, columns, sch) (gbs, err)
+//@   requires SchemaOK(sch)
+//@   ensures [C02] err != nil ==> arr(gbs) == nil && len(gbs) == 0
+//@   ensures [C02] err == nil ==> GBOK(gbs, columns, sch)
+//@   ensures [C02] unknown_column_is_error: (exists j idx(columns) :: !(columns[j] in sch.Columns)) ==> err != nil
+//@   ensures [C02] empty_list: len(columns) == 0 ==> len(gbs) == 0 && err == nil
+//@   loop 1
+//@     invariant len(groupByFields) == $i && 0 <= $i && $i <= len(columns)
+//@     invariant arr(groupByFields) == nil || (!(arr(groupByFields) in old($alloc)) && allocated(arr(groupByFields)))
+//@     invariant forall j idx(columns) :: j < $i ==> (columns[j] in sch.Columns)
+//@     invariant GBDone(groupByFields, columns, sch)
+//@   loop 2
+//@     invariant col != nil && col == sch.Columns[colName] && (colName in sch.Columns) && colName == columns[$i1]
+//@     invariant arr(gb.Values) == nil || (!(arr(gb.Values) in old($alloc)) && allocated(arr(gb.Values)))
+//@     invariant gb.Column == colName
+//@     invariant forall a idx(gb.Values) :: (gb.Values[a].Value in col.Values) && col.Values[gb.Values[a].Value] == gb.Values[a].Idx && (gb.Values[a].Value in $visited)
+//@     invariant forall a idx(gb.Values), b idx(gb.Values) :: a != b ==> gb.Values[a].Value != gb.Values[b].Value
+//@     invariant GBDone(groupByFields, columns, sch)
+//@     invariant forall j idx(groupByFields) :: arr(groupByFields[j].Values) == nil || arr(groupByFields[j].Values) != arr(gb.Values)
+
+//@ pred GBDone(gbs []groupBy, columns []string, sch *schema) :=
+//@   (forall j idx(gbs) :: gbs[j].Column == columns[j] && (columns[j] in sch.Columns)
+//@      && (arr(gbs[j].Values) == nil || (!(arr(gbs[j].Values) in old($alloc)) && allocated(arr(gbs[j].Values))))
+//@      && ValuesOK(gbs[j].Values, sch.Columns[columns[j]]))
+
+//@ func [C02,C08,C14,C04] (*Query).groupBy(q, gbf, result, idx) (final)
+//@   requires IdxInv(idx) && result != nil
+//@   requires forall j idx(gbf) :: forall a idx(gbf[j].Values) :: (gbf[j].Values[a].Idx in idx.values.has)
+//@   ensures [C02] empty_list_no_groups: len(gbf) == 0 ==> len(final) == 0
+//@   ensures [C02] shape: forall g idx(final) :: len(final[g].Fields) == len(gbf) && final[g].Count > 0
+
+//@ func [C08,C14,C04,C01,C02] (*Index).Execute(idx, q) (result, err)
 //@   requires IdxInv(idx) && q != nil && idx.mtx.held == 0
 //@   modifies heap list.List.stamp; heap list.List.clock; heap list.List.members; heap CounterMetric.count; heap LRUCache.curSize
 //@   modifies heap map[uint64]*list.Element; heap dom[uint64]*list.Element; heap lruCacheItem.bm; heap lruCacheItem.size; heap HistogramMetric.obs
+//@   modifies heap sync.Mutex.held
 //@   ensures [C14] err != nil ==> result == nil
 //@   ensures [C14] err == nil ==> result != nil
 //@   ensures [C14,C04] IdxInv(idx) && idx.mtx.held == 0
+
+// validateExpr: establishes well-formedness (termination of the recursion over finite trees is not proved).
+//@ func [C14,C01] validateExpr(expr) (err)
+//@   ensures [C14] err == nil ==> wf(expr)
+//@   loop 1
+//@     invariant forall j idx(e.Exprs) :: j < $i ==> wf(e.Exprs[j])
+//@     invariant 0 <= $i
+//@   loop 2
+//@     invariant forall j idx(e.Exprs) :: j < $i ==> wf(e.Exprs[j])
+//@     invariant 0 <= $i
